@@ -33,7 +33,8 @@
 (*                                                                             *)
 (* Part B - the send pipeline as a state machine over a scripted chain:        *)
 (*   GetState(none|uninit|active(n)|frozen|err), Build, Send(ok|err),          *)
-(*   Poll(err|value), Deadline, Return(ok|err).                                *)
+(*   Poll(err|value), Deadline, Return(ok|err).  GetState and Poll carry `own`: *)
+(*   whether the wallet asked about its own account.                           *)
 (* Step(p, s, e) is the transition function; the generator (gen/) enumerates   *)
 (* its behaviours, the trace spec (trace/) folds it over recorded runs.        *)
 EXTENDS Boc, Json
@@ -246,8 +247,9 @@ ReturnWhy(p, s, res) ==
 Step(p, s, e) ==
   IF s.pc = "bad" THEN s
   ELSE CASE e.k = "GetState" ->
-         IF s.pc = "start" /\ p.entry \in StateEntries /\ e.st \in {"none", "uninit", "active", "frozen", "err"}
-         THEN [s EXCEPT !.pc = "got", !.st = e.st, !.n = e.n] ELSE Bad(s, "GetState")
+         IF ~(s.pc = "start" /\ p.entry \in StateEntries /\ e.st \in {"none", "uninit", "active", "frozen", "err"}) THEN Bad(s, "GetState:order")
+         ELSE IF ~e.own THEN Bad(s, "GetState:account")             \* it is the wallet's own account whose state decides
+         ELSE [s EXCEPT !.pc = "got", !.st = e.st, !.n = e.n]
     [] e.k = "Build" ->
          IF ~((s.pc = "got" /\ s.st # "err") \/ (s.pc = "start" /\ p.entry \in RawEntries)) THEN Bad(s, "Build:order")
          ELSE IF ParamsWhy(p, s, e.seq, e.init) # "" THEN Bad(s, StrCat("Build:", ParamsWhy(p, s, e.seq, e.init)))
@@ -262,6 +264,7 @@ Step(p, s, e) ==
     [] e.k = "Poll" ->
          IF s.pc # "sent" \/ ~p.confirm THEN Bad(s, "Poll:order")
          ELSE IF s.adv THEN Bad(s, "Poll:after-advance")
+         ELSE IF ~e.own THEN Bad(s, "Poll:account")
          ELSE LET a == e.r = "val" /\ HasSeqno(p.ver) /\ NatLess(s.seq, e.v) IN
               [s EXCEPT !.polls = @ + 1, !.adv = ~s.late /\ a, !.lateAdv = @ \/ (s.late /\ a)]
     [] e.k = "Deadline" ->
